@@ -49,4 +49,18 @@ DepthOf(s, n) == IF n = 0 THEN 0 ELSE DepthOf(s, n - 1) + (IF s[n] = LP THEN 1 E
 Plain(s) == \A i \in 1..Len(s) : s[i] \notin {DQ, SEMI, BS}
 BalancedIffAccepted == Plain(x) => (~Failed(Lex(x, FALSE, FALSE, d)) <=>
                            (DepthOf(x, Len(x)) = 0 /\ \A n \in 0..Len(x) : DepthOf(x, n) >= 0))
+\* "the remainder of the line is ignored": in a text without quotes and backslashes every semicolon starts
+\* a comment, and deleting the comments (up to, not including, the newline) changes nothing
+RECURSIVE StripComments(_, _, _)
+StripComments(s, i, inc) == IF i > Len(s) THEN <<>>
+                            ELSE IF s[i] = NL THEN <<NL>> \o StripComments(s, i + 1, FALSE)
+                            ELSE IF inc \/ s[i] = SEMI THEN StripComments(s, i + 1, TRUE)
+                            ELSE <<s[i]>> \o StripComments(s, i + 1, FALSE)
+CommentsIgnored == (\A i \in 1..Len(x) : x[i] \notin {DQ, BS}) =>
+                      Lex(StripComments(x, 1, FALSE), FALSE, FALSE, d) = Lex(x, FALSE, FALSE, d)
+\* "any combination of tabs and spaces": one more blank in front changes nothing but the WHITESPACE report,
+\* and a single blank is enough to be reported to a caller that wants leading white space
+LeadingBlank == \A o \in B2 : LET y == <<SP>> \o x IN
+                   IF x # <<>> /\ Blank(x[1], 0, d) THEN Lex(y, o[1], o[2], d) = Lex(x, o[1], o[2], d)
+                   ELSE Lex(y, o[1], o[2], d) = (IF o[1] THEN <<TWs>> ELSE <<>>) \o Lex(x, o[1], o[2], d)
 =============================================================================
